@@ -62,7 +62,7 @@ def reference(n, succ, flagged, red):
 _TIMEOUTS = [0]   # per worker process: after a few non-terminating cases the rest of the chunk is not executed
 
 
-HISTORIES = ["single", "premarked", "flagged_first", "last_late", "marked_includer_first"]
+HISTORIES = ["single", "premarked", "flagged_first", "last_late", "marked_includer_first", "looked_up_before"]
 
 
 def run_case(ctx, n, edges, fl, red, names, history="single"):
@@ -106,6 +106,12 @@ def run_case(ctx, n, edges, fl, red, names, history="single"):
             used.add("R")
         return used, i in flagged
 
+    if history == "looked_up_before":
+        # the pages have been used (looked up) before the analysis, as a processing run that analyses late would do
+        for i in range(n):
+            ctx.get_page("Template:" + names[i], 10)
+        if red is not None:
+            ctx.get_page("Template:R", 10)
     signal.signal(signal.SIGALRM, _alarm)
     signal.setitimer(signal.ITIMER_REAL, 2.0)
     try:
@@ -125,9 +131,17 @@ def run_case(ctx, n, edges, fl, red, names, history="single"):
         signal.setitimer(signal.ITIMER_REAL, 0)
     want = reference(n, succ, flagged, red)
     wt = {"Template:" + (names[x] if isinstance(x, int) else x) for x in want}
+    # what a lookup reports right after the analysis (no cache clearing by the harness)
+    looked = set()
+    for t in ["Template:" + names[i] for i in range(n)] + (["Template:R"] if red is not None else []):
+        pg = ctx.get_page(t, 10)
+        if pg is not None and pg.need_pre_expand:
+            looked.add(t)
     type(ctx).get_page.cache_clear()
     got = {p.title for p in ctx.get_all_pages([10]) if p.need_pre_expand}
     out = []
+    if looked != got:
+        out.append(("lookup_agrees_with_stored_marks", {"lookup_only": sorted(looked - got), "stored_only": sorted(got - looked)}, sorted(got)))
     if got != wt:
         out.append(("marks_exactly_closure", {"over": sorted(got - wt), "under": sorted(wt - got)}, sorted(wt)))
     other = [p.title for p in ctx.get_all_pages([0, 828]) if p.need_pre_expand]
@@ -237,7 +251,7 @@ def main(run):
                 "%s; 8 families (chain, ring, stars, diamond, two SCCs with a bridge, complete, self-loops) on %s templates x all flag "
                 "sets x 4 redirect placements; every case under %d histories that reach the same page set (one analysis; flagged templates "
                 "stored with the flag set; flagged templates analysed first, the others arriving before a second analysis; the last "
-                "template arriving late; flagged templates and their direct includers first). distinct = distinct graphs."
+                "template arriving late; flagged templates and their direct includers first; every template looked up before the analysis), the marks also read back through get_page() right after the analysis. distinct = distinct graphs."
                 % (2 if q else 4, "" if q else "; all 65536 digraphs on 4 templates x all 16 flag sets", "5-6" if q else "5-8", len(HISTORIES)),
         "exhaustive": True,
     }
